@@ -148,7 +148,12 @@ def run(case):
                 scale = max(scale, 1.0)
             err = np.abs(vb - va).max() / scale
         met["%s_%s_%s" % (t, key, case["mode"])] = err
-        if not np.isfinite(err) or err > tol:
+        tol_k = tol
+        if key == "cross_sections" and sc["kind"] == "layered":
+            # the layered recursion carries C_ext = O(x^6) in coefficients of O(x^3): relative rounding noise ~ eps / x^3 times
+            # the amplification measured for C03 (known finding there); three one-ulp probes do not always sample its maximum
+            tol_k = max(tol, 1e7 * np.finfo(float).eps / min(1.0, sc["x"]) ** 3 * TOLX)
+        if not np.isfinite(err) or err > tol_k:
             return Outcome(failure("unit_dependence" if case["mode"] == "scale" else "index_reduction",
                                    "%s of %s changes by %.3g (rel) when %s" % (
                                        key, lab, err, "all lengths are multiplied by 10^%.3f" % case["u"] if case["mode"] == "scale"
